@@ -472,13 +472,30 @@ Fixpoint py_asdict (t : nty) (v : val) : pyres pyj :=
       end
   end.
 
-(* json.dumps: which JSON value is written; a bytearray is not serializable *)
+(* what to_dict() is specified to hold: the value tree with names, in number order; a
+   `byte[n]` field stays a bytearray object (only to_json() converts it) *)
+Fixpoint dict_spec (t : nty) (v : val) : pyj :=
+  match t with
+  | NBool => PJBool (vbool v)
+  | NByte | NUint _ | NInt _ | NEnum _ _ => PJInt (zof v)
+  | NAlias u => dict_spec u v
+  | NArr _ _ e =>
+      if is_byte e then PJBytes (map zof (vlist v)) else PJList (map (dict_spec e) (vlist v))
+  | NMsg _ fs =>
+      PJDict (map snd (sort_fields
+                         (map (fun f => (fnum f, (fname f, dict_spec (ftype f) (vfield (fnum f) v)))) fs)))
+  end.
+
+(* json.dumps(to_dict(), default=...): which JSON value is written *)
 Fixpoint py_dumps (p : pyj) : pyres jtree :=
   match p with
   | PJInt z => POk (JNum z)
   | PJBool b => POk (JBool b)
   | PJList l => match seq_res (map py_dumps l) with POk x => POk (JList x) | PRaise e => PRaise e end
-  | PJBytes _ => PRaise PyTypeError
+  | PJBytes l =>
+      (* not serializable by itself: json.dumps calls its `default` hook, which to_json() passes
+         since fix b3480f8 (GenJson.dumps_bytes_as_list, read from bp.py): list(o) *)
+      if dumps_bytes_as_list then POk (JList (map JNum l)) else PRaise PyTypeError
   | PJDict kvs =>
       match seq_res (map (fun kv => match py_dumps (snd kv) with
                                     | POk j => POk (fst kv, j)
@@ -499,15 +516,6 @@ Definition py_to_json (isep ksep : string) (t : nty) (v : val) : pyres string :=
 (* ------------------------------------------------------------------------------------ *)
 (* guards of the theorems                                                               *)
 (* ------------------------------------------------------------------------------------ *)
-
-(* no `byte[n]` anywhere (the region of finding json-bytes) *)
-Fixpoint no_byte_array (t : nty) : bool :=
-  match t with
-  | NAlias u => no_byte_array u
-  | NArr _ _ e => negb (is_byte e) && no_byte_array e
-  | NMsg _ fs => forallb (fun f => no_byte_array (ftype f)) fs
-  | _ => true
-  end.
 
 (* no field name begins with the documented proxy prefix (the region of finding
    json-proxy-name).  The literal is written here on purpose: the guard does not move when
